@@ -7,7 +7,8 @@ so that they can be reviewed and committed as known/C17_histories.json.  Each hi
   pin_histories.py sched [budget] [seeds]
                               the same for the schedule families of tools/c17sched.py (known/C17_sched_histories.json): EXACT histories
                               of the families that are enumerated completely, history SHAPES harvested from them and from the sampled
-                              families under the given seeds (default 1,2,3,4,5).  A class is PROPOSED by c17sched.review_class (F13 / F14
+                              families under the given seeds (default: every sample universe, 0 .. SAMPLE_UNIVERSES-1, i.e. every
+                              schedule any VERIF_SEED can draw).  A class is PROPOSED by c17sched.review_class (F13 / F14
                               as above for every preempted party; F31: a preempted flag party and a preempted copying party, one message
                               duplicated (and another lost), no stray; F32: rules matching every file, a copying party preempted with its
                               copy in flight, a message lost and only short strays) and only for histories the parties model reproduces;
@@ -25,7 +26,7 @@ from props import c17        # noqa: E402
 def sched_main(argv):
     import c17sched as cs
     budget = int(argv[0]) if argv else cs.BUDGET
-    seeds = [int(x) for x in argv[1].split(',')] if len(argv) > 1 else [1, 2, 3, 4, 5]
+    seeds = [int(x) for x in argv[1].split(',')] if len(argv) > 1 else list(range(cs.SAMPLE_UNIVERSES))
     sc = vlib.Scratch()
     tools = proc.Tools(sc)
     exact, shapes = {}, {}
@@ -45,17 +46,11 @@ def sched_main(argv):
                 continue
             if family in cs.EXHAUSTIVE:
                 exact[sig] = cls
-            # the shape with the fewest preempted (kind, phase) pairs is what has to be present
-            shapes[shape] = cls
-    # drop shapes implied by a smaller one of the same class
-    keys = sorted(shapes)
-    parsed = {k: (k.split(' || ')[0], k.split(' || ')[1], set(v for v in k.split(' || ')[2].split(',') if v)) for k in keys}
-    minimal = {}
-    for k in keys:
-        rs, ps, vs = parsed[k]
-        if any(o != k and parsed[o][0] == rs and parsed[o][1] == ps and parsed[o][2] < vs and shapes[o] == shapes[k] for o in keys):
-            continue
-        minimal[k] = shapes[k]
+            # the shape: rule shape, what is wrong, and ONE preempted (kind, phase) pair of those the class is about
+            pl = [t for t in ps.split(',') if cls == 'name-reuse-unlink' or t != 'stale-unlink']
+            for v in cs.essential_victims(cls, [v for v in vs.split(',') if v]):
+                shapes[cs.shape_key(rs, pl, [v])] = cls
+    minimal = shapes
     json.dump({'exact': exact, 'shapes': minimal}, sys.stdout, indent=1, sort_keys=True)
     sys.stdout.write('\n')
 
